@@ -55,7 +55,9 @@ THEOREMS = {
             ("policyArm_eq", "policy_iff", "own_bit_only", "negative_rc_any_mask", "zero_rc_any_mask", "mask_irrelevant_unless_class",
              "abort_only_outside_classes", "init_defaults")],
     "C09": _gt("reserved_eq", "example_eq", "exampleLabel_eq", "lenFilter_eq", "tldTypeEnum_eq") + [("Eav.Props.C09", "Eav.Props.C09." + n) for n in
-            ("walkers", "skip_to_last_two", "checkTable_iff", "filter_ok", "tail_decision", "special_iff", "special_iff_host", "copyLabel_take")],
+            ("walkers", "skip_to_last_two", "checkTable_iff", "filter_ok", "tail_decision", "special_iff", "special_iff_host", "copyLabel_take")] +
+           [("Eav.Props.C09Api", "Eav.Props.C09." + n) for n in ("no_special_row", "isTld_ne_special", "special_class_iff_reserved", "tld_off_no_class")] +
+           [("Eav.Props.C09Email", "Eav.Props.C09." + n) for n in ("email_special_sound", "email_special_only_reserved")],
     "C10": _gt("errEnum_eq") + [("Eav.Props.C10", "Eav.Props.C10." + n) for n in
             ("same_conversion_same_outcome", "isAsciiDomain_lower", "ascii_domain_agree", "checkTld_lower", "utf8_as_ascii", "ascii_modes_agree",
              "refusal_is_idn_error")] + [("Eav.Props.C19", "Eav.Props.C19.idn_failure_rejected")],
